@@ -25,6 +25,7 @@ namespace {
 
 const int NR = 6, NCH = 2, NMX = 2, NSEM = 2;
 enum Step { S_YIELD = 0, S_WAIT, S_SEND, S_RECV, S_LOCK, S_UNLOCK, S_ACQUIRE, S_RELEASE, S_BWAIT, S_BPOST, S_JOIN, S_CANCEL, S_CREATE, S_CADD, S_CWAIT, S_CPOST, S_NSTEP };
+enum { M_WAKECANCEL = 100 };     // main only: wake whoever waits on an object (send / release / post) and cancel the first of the woken routines before it has run
 static const char *SN[] = {"yield", "wait", "send", "recv", "lock", "unlock", "acquire", "release", "bwait", "bpost", "join", "cancel", "create", "cadd", "cwait", "cpost"};
 
 // ops:  rt <r> <autostart>      st <r> <kind> <a>      mn <dt_ms> <kind> <a>      (main kinds: S_WAIT=resume r, S_CANCEL, S_SEND ch, S_RELEASE s, S_BPOST, S_CPOST v, S_CREATE r)
@@ -51,7 +52,7 @@ void generate(sim::Rng &r, uint64_t seed, const std::string &tier, sim::Plan &p)
       else if (theme == 4) { static const long ks[] = {S_BWAIT, S_BPOST, S_JOIN, S_CADD, S_CWAIT, S_CPOST, S_YIELD, S_CANCEL, S_CREATE, S_WAIT}; kind = ks[r.below(10)]; }
       else kind = (long)r.below(S_NSTEP);
       if (kind == S_SEND || kind == S_RECV) a = r.chance(800) ? 0 : 1;
-      else if (kind == S_LOCK || kind == S_UNLOCK) a = r.chance(800) ? 0 : 1;
+      else if (kind == S_LOCK || kind == S_UNLOCK) { a = r.chance(800) ? 0 : 1; if (kind == S_UNLOCK && r.chance(300)) a += NMX; }   // + NMX: after unlocking, cancel the first routine waiting for that mutex before it runs
       else if (kind == S_ACQUIRE || kind == S_RELEASE) a = r.chance(800) ? 0 : 1;
       else if (kind == S_JOIN || kind == S_CANCEL || kind == S_CREATE) a = (long)r.below((uint64_t)nr);
       else if (kind == S_CADD || kind == S_CPOST) a = r.range(1, 3);
@@ -68,6 +69,8 @@ void generate(sim::Rng &r, uint64_t seed, const std::string &tier, sim::Plan &p)
     else if (kind == S_CPOST) a = r.range(1, 3);
     else a = r.chance(800) ? 0 : 1;
     op.a = {r.chance(500) ? 0 : r.range(1, 5), kind, a};
+    // 4th: after a waking operation (send / release / broadcast post), cancel the first routine it woke before that routine runs
+    if ((kind == S_SEND || kind == S_RELEASE || kind == S_BPOST) && r.chance(300)) op.a.push_back(1);
     p.ops.push_back(op);
   }
   p.sched.strategy = "none";
@@ -150,7 +153,14 @@ void routine_body(int r, Scheduler &sch) {
         }
         break;
       }
-      case S_UNLOCK: { int m = (int)(a % NMX); if (W.mx_holder[m] == r) { W.mx_holder[m] = -1; W.mx[m]->unlock(); } break; }
+      case S_UNLOCK: {
+        int m = (int)(a % NMX);
+        if (W.mx_holder[m] == r) {
+          W.mx_holder[m] = -1; W.mx[m]->unlock();
+          if ((a / NMX) & 1) for (int o = 0; o < NR; ++o) { RState &x = W.rs[o]; if (o != r && x.created && !x.finished && x.blocked_kind == S_LOCK && x.blocked_obj == m) { x.cancel_sent = true; sch.cancel(x.token); sim::probe("wake_then_cancel"); break; } }
+        }
+        break;
+      }
       case S_ACQUIRE: {
         int s = (int)(a % NSEM);
         me.blocked_kind = S_ACQUIRE; me.blocked_obj = s;
@@ -299,6 +309,15 @@ void execute(const sim::Plan &plan) {
           case S_CPOST: cond_post_model((int)a); W.cond->post((int)a); break;
           case S_CREATE: { int r = (int)(a % NR); if (W.rs[r].defined && !W.rs[r].created) create_routine(r, true); break; }
           default: break;
+        }
+        if (op->arg(3) != 0 && (kind == S_SEND || kind == S_RELEASE || kind == S_BPOST)) {
+          // the routine that was woken first is cancelled before it gets to run: whoever else waits must not be left behind
+          int want_kind = kind == S_SEND ? S_RECV : kind == S_RELEASE ? S_ACQUIRE : S_BWAIT;
+          long obj = kind == S_SEND ? (long)(a % NCH) : kind == S_RELEASE ? (long)(a % NSEM) : 0;
+          for (int r = 0; r < NR; ++r) {
+            RState &x = W.rs[r];
+            if (x.created && !x.finished && x.blocked_kind == want_kind && (want_kind == S_BWAIT || x.blocked_obj == obj)) { x.cancel_sent = true; W.sch->cancel(x.token); sim::probe("wake_then_cancel"); break; }
+          }
         }
         if (cleanup_after && !W.cleaned_early) {
           // cleanup() while the routines woken by this very operation are ready but have not run yet
